@@ -233,6 +233,62 @@ def h_roundtrip(idx: int, other: int, retries: int, success: bool, has_delayed: 
     return vkopf.verdict(ok)
 
 
+def h_diffbase(shape: int, v: int, drs: bool, has_user: bool, prior: bool) -> bool:
+    """
+    pre: 0 <= shape <= 3
+    post: _ == True
+    """
+    # the last-handled state: whatever essence is stored -- also the EMPTY one of an object without spec/labels/annotations --
+    # is read back identically, and storing it does not change what the storage itself considers essential
+    vkopf.begin_path()
+    c = vkopf.cell()
+    shape = vkopf.pin('shape', shape)
+    v = vkopf.choose(v, [0, 7])
+    kind, prefix, v1 = c.get('storage', 'annotations'), c.get('prefix', 'kopf.zalando.org'), c.get('v1', True)
+    if kind == 'annotations':
+        ds = diffbase.AnnotationsDiffBaseStorage(prefix=prefix, v1=v1)
+    elif kind == 'status':
+        ds = diffbase.StatusDiffBaseStorage()
+    else:
+        ds = diffbase.MultiDiffBaseStorage([diffbase.AnnotationsDiffBaseStorage(prefix=prefix, v1=v1), diffbase.StatusDiffBaseStorage()])
+    raw = base_body()
+    raw.pop('spec', None)
+    if shape == 1:
+        raw['spec'] = {'x': v}
+    elif shape == 2:
+        raw['spec'] = {}
+        raw['metadata']['labels'] = {'app': 'l%d' % v}
+    elif shape == 3:
+        raw['spec'] = {'x': None, 'sub': {'y': v}}
+    if drs:
+        raw['kind'] = 'ReplicaSet'
+        raw['metadata']['ownerReferences'] = [{'kind': 'Deployment', 'name': 'd'}]
+    if has_user:
+        raw['metadata'].setdefault('annotations', {})['user/note'] = 'keep'
+    if prior:
+        p0 = patches.Patch()
+        ds.store(body=bodies.Body(raw), patch=p0, essence={'spec': {'old': 1}})
+        raw = rfc7386(raw, dict(p0))
+    e0 = ds.build(body=bodies.Body(raw))
+    ok = True
+    if not prior and ds.fetch(body=bodies.Body(raw)) is not None:
+        ok = False                                  # nothing stored yet: never seen
+    p1 = patches.Patch()
+    ds.store(body=bodies.Body(raw), patch=p1, essence=e0)
+    stored = rfc7386(raw, dict(p1))
+    got = ds.fetch(body=bodies.Body(stored))
+    if got is None or dict(got) != dict(e0):
+        ok = False                                  # read back identically ("handled, nothing essential" is not "never seen")
+    if dict(ds.build(body=bodies.Body(stored))) != dict(e0):
+        ok = False                                  # its own record is not part of the essence
+    if has_user and stored['metadata']['annotations'].get('user/note') != 'keep':
+        ok = False
+    if not e0:
+        vkopf.witness('empty_essence')
+    vkopf.witness('diffbase')
+    return vkopf.verdict(ok)
+
+
 def obligations():
     obs = []
     for v1 in (False, True):
@@ -253,4 +309,7 @@ def obligations():
         obs += split(Ob('h_roundtrip', cell, timeout=1500, tiers=('thorough',)), idx=[0, 1, 2, 3, 4, 5], other=[0, 3], has_user=[False, True])
     obs.append(Ob('h_roundtrip', {'storage': 'annotations', 'prefix': 'kopf.zalando.org', 'v1': True}, tiers=('quick', 'thorough'),
                   timeout=300, twins=['roundtrip', 'drs'], main=False))
+    for kind, prefix, v1 in (('annotations', 'kopf.zalando.org', True), ('multi', 'my.op.io', False), ('status', 'kopf.zalando.org', True)):
+        obs.append(Ob('h_diffbase', {'storage': kind, 'prefix': prefix, 'v1': v1}, timeout=600,
+                      twins=['empty_essence'] if kind == 'annotations' else []))
     return obs
